@@ -17,8 +17,10 @@ LEVEL = "exploration"
 RULE = (
     "one run = 3-5 inputs of one dialect, partly siblings (same base, different mutation) (dialect fixtures <= 1.5 kB from /repo/test/fixtures/dialects when readable, alone or two concatenated, "
     "a built-in corpus, small Jinja files with loops/ifs, and seeded token-level mutations of those: delete / "
-    "duplicate / swap a token, truncate, stray bracket / keyword / quote) parsed inside ONE long-lived node in a "
-    "drawn order with repeats, interleaved with parses and lint+fix runs of other dialects, each parse under a drawn "
+    "duplicate / swap a token, truncate, stray bracket / keyword / quote, count-preserving token replacement; in half "
+    "of the runs also an 'aborted parse, then its near twin' pair: a two-statement base whose copy A has an unpartnered "
+    "opening bracket in the second half - the parser raises part-way - and whose copy B differs by one token in the "
+    "first half, parsed back to back) parsed inside ONE long-lived node in a drawn order with repeats (siblings adjacent in half of the runs), interleaved with parses and lint+fix runs of other dialects, each parse under a drawn "
     "buggify configuration (parse cache answering 'miss' on a fraction r of its hits, first-token pruning skipped on "
     "a fraction r of calls, r in {0.1, 0.5, 1}). Each history parse must equal R0 = the same text parsed alone in a "
     "fresh process (other PYTHONHASHSEED, optimisations at defaults) and R1 = fresh process with both optimisations "
@@ -77,8 +79,17 @@ def mutate(rng: Rng, text: str) -> tuple[str, str]:
     toks = TOKEN.findall(text)
     if len(toks) < 4:
         return text, "none"
-    kind = rng.choice(["delete", "dup", "swap", "truncate", "bracket", "keyword", "quote"])
+    kind = rng.choice(["delete", "dup", "swap", "truncate", "bracket", "keyword", "quote", "replace", "replace", "replace_open"])
     i = rng.randrange(len(toks))
+    if kind in ("replace", "replace_open"):
+        # count-preserving: the sibling keeps the token count and every other token's position,
+        # which is what parse-cache keys (raw, position, type, max_idx) are made of. An opening
+        # bracket with no partner makes the parser *raise* part-way (an aborted parse).
+        code = [j for j, t in enumerate(toks) if not t.isspace()]
+        i = rng.choice(code)
+        new = "(" if kind == "replace_open" else rng.choice(["(", ")", ",", "x", "1", "SELECT", "FROM", "AS", "+", ";", "'s'"])
+        toks[i] = new
+        return "".join(toks), kind
     if kind == "delete":
         del toks[i]
     elif kind == "dup":
@@ -140,6 +151,27 @@ def gen_inputs(rng: Rng) -> tuple[list[dict], list[dict]]:
         if rng.chance(0.45) or family:
             text, mut = mutate(rng, text)
         inputs.append({"text": text, "base": base_text, "dialect": d, "templater": templater, "src": src, "mut": mut})
+    if rng.chance(0.5):
+        # an "aborted parse, then its near twin" pair: a multi-statement base; twin A gets an
+        # opening bracket without partner in the second half (the parser raises part-way, after
+        # the earlier statements were matched), twin B a count-preserving change in the first
+        # half. Same token count, same positions: whatever A's parse leaves behind meets B.
+        def read(pth: str) -> str:
+            with open(pth, encoding="utf-8", errors="replace") as fh:
+                return fh.read()
+
+        fx = fixtures(dialect)
+        parts = [read(rng.choice(fx)) if fx else rng.choice(corpus("ansi")) for _ in range(2)]
+        base = parts[0].rstrip()
+        base += ("" if base.endswith(";") else ";") + "\n" + parts[1]
+        toks = TOKEN.findall(base)
+        code = [j for j, t in enumerate(toks) if not t.isspace()]
+        if len(code) >= 6:
+            ta, tb = list(toks), list(toks)
+            ta[rng.choice(code[len(code) // 2:])] = "("
+            tb[rng.choice(code[: len(code) // 2])] = rng.choice(["(", ")", ",", "x", "1", "SELECT", "FROM", "AS", "+", ";", "'s'"])
+            for role, tk in (("abort", ta), ("twin", tb)):
+                inputs.append({"text": "".join(tk), "base": base, "dialect": dialect, "templater": "raw", "src": "pair", "mut": "pair_" + role, "pair": role})
     # fillers from other dialects (history)
     fillers = []
     others = [d for d in avail if d != dialect] or ["ansi"]
@@ -173,11 +205,26 @@ def gen_history(rng: Rng, inputs: list, fillers: list) -> list[dict]:
     ops = []
     order = list(range(len(inputs))) + [rng.randrange(len(inputs)) for _ in range(rng.randint(1, 3))]
     rng.shuffle(order)
-    for i in order:
-        if fillers and rng.chance(0.35):
+    adjacent = rng.chance(0.5)
+    if adjacent:
+        # members of one family (same base text) back to back, nothing in between: state left
+        # behind by one parse (also an aborted one) meets the most similar next input
+        fam: dict[str, list[int]] = {}
+        for i in order:
+            fam.setdefault(inputs[i]["src"], []).append(i)
+        order = [i for k in fam for i in fam[k]]
+    for n, i in enumerate(order):
+        same_family = n > 0 and inputs[order[n - 1]]["src"] == inputs[i]["src"]
+        if fillers and rng.chance(0.35) and not (adjacent and same_family):
             f = rng.randrange(len(fillers))
             ops.append({"op": rng.choice(["parse_filler", "lint_filler", "fix_filler"]), "filler": f})
         ops.append({"op": "parse", "input": i, "buggify": rng.choice(BUGGIFY), "shared_linter": rng.chance(0.5)})
+    pair = {inp.get("pair"): k for k, inp in enumerate(inputs) if inp.get("pair")}
+    if len(pair) == 2:
+        at = rng.randrange(len(ops) + 1)
+        sh = rng.chance(0.5)
+        ops[at:at] = [{"op": "parse", "input": pair["abort"], "buggify": {}, "shared_linter": sh},
+                      {"op": "parse", "input": pair["twin"], "buggify": rng.choice([{}, {}, {"prune_off": 0.5}]), "shared_linter": sh}]
     return ops
 
 
